@@ -13,6 +13,8 @@ use actix_http::{
     header::{HeaderName, HeaderValue},
     HttpMessage as _, HttpService, KeepAlive, Request, Response, StatusCode,
 };
+use actix_codec::Framed;
+use actix_http::h1::{Codec, Message};
 use actix_service::{fn_service, Service, ServiceFactory};
 use bytes::Bytes;
 use futures_core::Stream;
@@ -816,9 +818,34 @@ pub fn run_case(case: &Value) -> Vec<Value> {
             b = b.graceful_shutdown_signal(move || SigFut(ws.clone()));
         }
         let (w2, p2, e2) = (world.clone(), progs.clone(), expect.clone());
-        let factory = b.h1(fn_service(move |req: Request| handler(w2.clone(), p2.clone(), e2.clone(), req)));
-        let svc = factory.new_service(()).await.expect("service");
-        let mut fut = Some(Box::pin(svc.call((Sock(world.clone()), None))));
+        let w3 = world.clone();
+        // upgrade service: answers 101 through the Framed it is handed (left-over write buffer included) and ends
+        let upg = fn_service(move |(req, mut framed): (Request, Framed<Sock, Codec>)| {
+            let w = w3.clone();
+            async move {
+                let i: usize = req.path().strip_prefix("/r").and_then(|s| s.parse().ok()).unwrap_or(0);
+                w.borrow_mut().ev(json!({"ev":"Call","i":i,"m":req.method().as_str(),"ver":11,"tok":true,"hok":true,"nh":req.headers().len(),"upgrade":true}));
+                let mut res = Response::build(StatusCode::SWITCHING_PROTOCOLS);
+                res.insert_header((HeaderName::from_static("x-req"), HeaderValue::from(i as u64)));
+                res.upgrade("websocket");
+                let res = res.finish().drop_body();
+                Pin::new(&mut framed).write(Message::Item((res, BodySize::None))).map_err(|_| actix_http::Error::from(actix_http::error::PayloadError::Incomplete(None)))?;
+                std::future::poll_fn(|cx| Pin::new(&mut framed).flush(cx)).await.map_err(|_| actix_http::Error::from(actix_http::error::PayloadError::Incomplete(None)))?;
+                Ok::<(), actix_http::Error>(())
+            }
+        });
+        let use_upgrade = cfg.get("upgrade").and_then(|g| g.as_bool()).unwrap_or(false);
+        let sock = Sock(world.clone());
+        let main_svc = fn_service(move |req: Request| handler(w2.clone(), p2.clone(), e2.clone(), req));
+        let mut fut: Option<Pin<Box<dyn Future<Output = Result<(), actix_http::error::DispatchError>>>>> = if use_upgrade {
+            let factory = b.upgrade(upg).h1(main_svc);
+            let svc = factory.new_service(()).await.expect("service");
+            Some(Box::pin(svc.call((sock, None))))
+        } else {
+            let factory = b.h1(main_svc);
+            let svc = factory.new_service(()).await.expect("service");
+            Some(Box::pin(svc.call((sock, None))))
+        };
         let cw = Arc::new(CountWaker(AtomicUsize::new(1)));
         let waker = Waker::from(cw.clone());
         let mut done = false;
